@@ -604,12 +604,27 @@ def _returned_and_written(func: ast.AST) -> set:
     """names that are returned by the function and written through at any depth (`ret.__dict__[k] = v; return ret`):
     results under construction"""
     returned = {n.value.id for n in walk_local(func) if isinstance(n, ast.Return) and isinstance(n.value, ast.Name)}
+    # `m = r.__dict__` / `m = r.items`: a write through m is a write through r
+    part_of: Dict[str, str] = {}
+    for n in walk_local(func):
+        if isinstance(n, (ast.Assign, ast.AnnAssign)) and n.value is not None:
+            tg = n.targets[0] if isinstance(n, ast.Assign) and len(n.targets) == 1 else n.target if isinstance(n, ast.AnnAssign) else None
+            b = n.value
+            if isinstance(tg, ast.Name) and isinstance(b, (ast.Attribute, ast.Subscript)):
+                while isinstance(b, (ast.Attribute, ast.Subscript)):
+                    b = b.value
+                if isinstance(b, ast.Name):
+                    part_of[tg.id] = b.id
     out = set()
     for n in walk_local(func):
         if isinstance(n, (ast.Attribute, ast.Subscript)) and isinstance(n.ctx, (ast.Store, ast.Del)):
             b = n.value
             while isinstance(b, (ast.Attribute, ast.Subscript)):
                 b = b.value
-            if isinstance(b, ast.Name) and b.id in returned:
-                out.add(b.id)
+            if isinstance(b, ast.Name):
+                root, hops = b.id, 0
+                while root in part_of and hops < 4:
+                    root, hops = part_of[root], hops + 1
+                if root in returned:
+                    out.add(root)
     return out
